@@ -34,7 +34,7 @@ ASSUMPTIONS = [
     "data sets of at most 25 rows per construction; d <= 4",
 ]
 BOUNDS = {
-    "quick": "d=2: 7 spec pairs, full grid in chunks + ordered tuples L=2 over thin grid; d=3: 2 spec triples, full grid chunks + L=1",
+    "quick": "d=2: 11 spec pairs, full grid in chunks + ordered tuples L=2 over thin grid; d=3: 2 spec triples, full grid chunks + L=1",
     "thorough": "adds L=3 (d=2, thin grid), L=2 (d=3), d=4 chunks + L=1, seeded bin sets",
 }
 BUDGET = {"quick": 240, "thorough": 3000}
@@ -48,6 +48,8 @@ PAIRS = {
     "gapped": [(0.0, 1.0), (2.0, 3.0)],
     "one": A.pairs_from_edges([-1, 1]),
     "neg": A.pairs_from_edges([-2, -1, 0.5]),
+    # a gap far below the tolerance of is_consecutive(): still a gap
+    "tinygap": [(0.0, 1.0), (1.0 + 2.0 ** -20, 2.0)],
 }
 
 # name -> (pairs name, kind, right)
@@ -66,6 +68,8 @@ AXSPECS = {
     "arr_neg": ("neg", "array", True),
     "pairs_gap": ("gapped", "pairs_array", True),
     "F_reg": ("regular", "FixedWidth", False),
+    "S_tiny_r": ("tinygap", "Static", True),
+    "S_tiny_o": ("tinygap", "Static", False),
 }
 
 CONFIGS2 = [
@@ -76,6 +80,11 @@ CONFIGS2 = [
     ["arr_two", "F_reg"],
     ["S_one_o", "S_three_r"],
     ["pairs_gap", "arr_neg"],
+    # equal edges, different right-edge declarations (either order)
+    ["S_two_r", "S_two_o"],
+    ["S_two_o", "S_two_r"],
+    ["S_tiny_r", "S_one_o"],
+    ["N_two_r", "S_tiny_o"],
 ]
 CONFIGS3 = [
     ["S_two_r", "S_one_o", "S_three_o"],
